@@ -101,9 +101,10 @@ class PersistentRemoteWorker(PersistentWorker, RemoteWorker):
                 remote_counter, valid, value, wid = result
                 if not valid:
                     logger.debug('New message signalling end of partial results')
-                    self._results_pipe.child_end.put(result)
+                    # the child can be interrupted (terminate) after counting a result but before sending it,
+                    # so report the number of results which have actually been forwarded
+                    self._results_pipe.child_end.put((counter, valid, value, wid))
                     last_partial_result_signalled = True
-                    assert remote_counter == counter, f'{remote_counter} {counter}'
                     assert value is None
                     assert wid == self.id
                 else:
